@@ -3468,3 +3468,107 @@ Proof.
       rewrite E' in W1. inversion W1; subst. reflexivity. }
   rewrite Hlev, W2, rsub_eq, Fa, Fb by auto. reflexivity.
 Qed.
+(* ================================================================ compute_average *)
+Definition land3 (a : list (list pt)) : Prop := Forall level3 a.
+Lemma lev_value : forall s k t, land3 s -> - INF < t -> t < INF -> exists w, value_at s k t = Some w /\ w == lev s k t.
+Proof.
+  intros s k t Ls Ht0 Ht1. unfold lev. destruct (Nat.ltb k (length s)) eqn:E.
+  - apply Nat.ltb_lt in E. rewrite (value_at_nth s k t E).
+    assert (H3 : level3 (nth k s [])) by (unfold land3 in Ls; rewrite Forall_forall in Ls; apply Ls; apply nth_In; auto).
+    destruct H3 as [Sx [L [F [X [Y0 [Y1 [Y2 Y3]]]]]]].
+    apply (value_at_is_interp _ t Sx L Y0 Y1 Y2 Y3); lra.
+  - apply Nat.ltb_ge in E. exists 0. split; [|reflexivity]. unfold value_at.
+    assert (E' : Nat.leb (length s) k = true) by (apply Nat.leb_le; auto). rewrite E'. reflexivity.
+Qed.
+Lemma radd_hyps : (forall a a' b b', a == a' -> b == b' -> radd a b == radd a' b') /\
+  (forall y1 y2 y1' y2' s, radd (y1 + (y2 - y1) * s) (y1' + (y2' - y1') * s) == radd y1 y1' + (radd y2 y2' - radd y1 y1') * s) /\
+  radd 0 0 == 0.
+Proof.
+  split; [|split].
+  - intros a a' b b' H H0; rewrite !radd_eq, H, H0; reflexivity.
+  - intros; rewrite !radd_eq; ring.
+  - rewrite radd_eq; ring.
+Qed.
+(* the sum of two landscapes in terms of their interpolations *)
+Lemma land_add_lev : forall a b, land3 a -> land3 b ->
+  exists s, land_add a b = Some s /\ land3 s /\ forall k t, - INF < t -> t < INF -> lev s k t == lev a k t + lev b k t.
+Proof.
+  intros a b La Lb. destruct radd_hyps as [C1 [C2 C3]].
+  destruct (op_levels_pointwise radd C1 C2 C3 a b La Lb) as [s [Hs Hval]].
+  pose proof (op_levels_level3 radd C1 C2 C3 a b s La Lb Hs) as Ls.
+  exists s. split; [exact Hs|]. split; [exact Ls|]. intros k t Ht0 Ht1.
+  destruct (Hval k t Ht0 Ht1) as [v [V1 V2]]. destruct (lev_value s k t Ls Ht0 Ht1) as [w [W1 W2]].
+  rewrite V1 in W1. inversion W1; subst. rewrite <- W2, V2. try apply radd_eq.
+Qed.
+
+Definition sumlev (ls : list (list (list pt))) (k : nat) (t : Q) : Q := fold_right (fun a acc => lev a k t + acc) 0 ls.
+Lemma list_ind2 : forall (A : Type) (P : list A -> Prop), P [] -> (forall a, P [a]) -> (forall a b tl, P tl -> P (a :: b :: tl)) -> forall l, P l.
+Proof.
+  intros A P H0 H1 H2. exact (fix IH (l : list A) : P l := match l with [] => H0 | [a] => H1 a | a :: b :: tl => H2 a b tl (IH tl) end).
+Qed.
+Lemma pair_round_spec : forall ls, Forall land3 ls ->
+  exists ls', pair_round ls = Some ls' /\ Forall land3 ls' /\
+    (forall k t, - INF < t -> t < INF -> sumlev ls' k t == sumlev ls k t) /\
+    (length ls' <= length ls)%nat /\ ((2 <= length ls)%nat -> (length ls' < length ls)%nat) /\ (ls <> [] -> ls' <> []).
+Proof.
+  intros ls. induction ls as [| a | a b tl IH] using list_ind2; intros H.
+  - exists []. repeat split; auto; try (simpl; lia); try (intros; reflexivity).
+  - exists [a]. repeat split; auto; try (simpl; lia); try discriminate; try (intros; reflexivity).
+  - inversion H as [|? ? Ha H']; subst. inversion H' as [|? ? Hb H'']; subst.
+    destruct (land_add_lev a b Ha Hb) as [s [Hs [Ls Hlev]]]. destruct (IH H'') as [tl' [Ht [Lt [Hsum [Hl1 [Hl2 _]]]]]].
+    exists (s :: tl'). cbn [pair_round]. rewrite Hs, Ht. repeat split; auto; try (simpl; lia); try discriminate.
+    intros k t Ht0 Ht1. simpl. rewrite Hlev, Hsum by auto. ring.
+Qed.
+Lemma avg_rounds_spec : forall fuel ls, Forall land3 ls -> ls <> [] -> (length ls <= fuel)%nat ->
+  exists s, avg_rounds fuel ls = Some s /\ land3 s /\ forall k t, - INF < t -> t < INF -> lev s k t == sumlev ls k t.
+Proof.
+  induction fuel as [|fuel IH]; intros ls H Hne Hf; [destruct ls; [congruence | simpl in Hf; lia]|].
+  cbn [avg_rounds]. destruct ls as [|a [|b tl]]; [congruence | |].
+  - exists a. inversion H; subst. repeat split; auto. intros; simpl; ring.
+  - destruct (pair_round_spec (a :: b :: tl) H) as [ls' [Hp [Ll [Hsum [Hl1 [Hl2 Hne']]]]]]. rewrite Hp.
+    destruct (IH ls' Ll (Hne' ltac:(discriminate)) ltac:(specialize (Hl2 ltac:(simpl; lia)); simpl in *; lia)) as [s [Hs [Ls Hlev]]].
+    exists s. repeat split; auto. intros k t Ht0 Ht1. rewrite Hlev, Hsum by auto. reflexivity.
+Qed.
+
+Theorem land_average_pointwise : forall ls, Forall land3 ls -> ls <> [] ->
+  exists s, land_average ls = Some s /\
+    forall k t, - INF < t -> t < INF ->
+      exists v, value_at s k t = Some v /\ v == sumlev ls k t / inject_Z (Z.of_nat (length ls)).
+Proof.
+  intros ls H Hne. destruct (avg_rounds_spec (S (length ls)) ls H Hne ltac:(lia)) as [s [Hs [Ls Hlev]]].
+  unfold land_average. rewrite Hs. eexists; split; [reflexivity|]. intros k t Ht0 Ht1.
+  set (c := rdiv 1 (inject_Z (Z.of_nat (length ls)))).
+  destruct (value_at_map1 (fun y => rmul c y)) with (a := s) (k := k) (t := t) as [v [H1 H2]]; auto.
+  - intros a a' E. rewrite !rmul_eq, E. reflexivity.
+  - intros. rewrite !rmul_eq. ring.
+  - rewrite rmul_eq. ring.
+  - exists v. split; [exact H1|]. rewrite H2, rmul_eq, Hlev by auto. unfold c. rewrite rdiv_eq.
+    assert (Hn : ~ inject_Z (Z.of_nat (length ls)) == 0).
+    { destruct ls; [congruence|]. simpl length. intro E. assert (0 < inject_Z (Z.of_nat (S (length ls)))); [|lra].
+      change 0 with (inject_Z 0). rewrite <- Zlt_Qlt. lia. }
+    field. exact Hn.
+Qed.
+
+Fixpoint sumlambda (Ds : list (list (Q * Q))) (k : nat) (t : Q) : Q :=
+  match Ds with [] => 0 | D :: tl => lambda D k t + sumlambda tl k t end.
+(* the average of the landscapes of n >= 1 diagrams is the pointwise mean of their landscape functions *)
+Theorem landscape_average : forall Ds, Ds <> [] -> Forall admissible Ds ->
+  exists lands s, Forall2 (fun D la => construct D 0 = Some la) Ds lands /\ land_average lands = Some s /\
+    forall k t, - INF < t -> t < INF ->
+      exists v, value_at s k t = Some v /\ v == sumlambda Ds k t / inject_Z (Z.of_nat (length Ds)).
+Proof.
+  intros Ds Hne Hadm.
+  assert (Hl : exists lands, Forall2 (fun D la => construct D 0 = Some la) Ds lands /\ Forall land3 lands /\
+                 forall k t, - INF < t -> t < INF -> sumlev lands k t == sumlambda Ds k t).
+  { clear Hne. induction Hadm as [|D tl HD Htl IH].
+    - exists []. repeat split; auto; try (intros; reflexivity).
+    - destruct IH as [lands [F2 [L3 Hsum]]]. destruct (construct_total D) as [la Ha].
+      destruct (construct_levels3 D la HD Ha) as [La Fa].
+      exists (la :: lands). repeat split; auto. intros k t Ht0 Ht1. simpl. rewrite Fa, Hsum by auto. reflexivity. }
+  destruct Hl as [lands [F2 [L3 Hsum]]].
+  assert (Hlen : length lands = length Ds) by (clear - F2; induction F2; simpl; auto).
+  assert (Hne' : lands <> []) by (destruct lands; [destruct Ds; [congruence | simpl in Hlen; lia] | discriminate]).
+  destruct (land_average_pointwise lands L3 Hne') as [s [Hs Hval]].
+  exists lands, s. repeat split; auto. intros k t Ht0 Ht1. destruct (Hval k t Ht0 Ht1) as [v [V1 V2]].
+  exists v. split; auto. rewrite V2, Hsum, Hlen by auto. reflexivity.
+Qed.
